@@ -70,11 +70,29 @@ def decide(eng: Engine, harness, post, inputs, r: ObResult, describe=None, max_c
         if p is None:  # path outside the claim (e.g. legitimately rejected input) – still counts for reachability
             continue
         reach = True
-        cond = conj(p if isinstance(p, (list, tuple)) else [p])
+        plist = list(p) if isinstance(p, (list, tuple)) else [p]
+        cond = conj(plist)
+        eng.solver.set("timeout", 8000)
         res, m = eng.check(z3.Not(cond), pc=pc)
+        eng.solver.set("timeout", eng.solver_timeout_ms)
+        if str(res) == "unknown" and len(plist) > 1:
+            # decide the conjuncts one by one (each query is much simpler than the conjunction)
+            res = z3.unsat
+            for ci, cj in enumerate(plist):
+                if isinstance(cj, bool):
+                    if cj:
+                        continue
+                    res, m = eng.check(pc=pc)
+                else:
+                    res, m = eng.check(z3.Not(cj), pc=pc)
+                if str(res) == "unknown":
+                    r.note = "solver unknown on conjunct %d of %d: %s" % (ci, len(plist), str(cj)[:200])
+                    break
+                if res == z3.sat:
+                    break
         if str(res) == "unknown":
             r.verdict = INCONCLUSIVE
-            r.note = "solver unknown on a post-condition query"
+            r.note = r.note or "solver unknown on a post-condition query"
             _fill(eng, r, t0)
             return r
         if res == z3.sat:
@@ -98,9 +116,27 @@ def decide(eng: Engine, harness, post, inputs, r: ObResult, describe=None, max_c
     return r
 
 
+def brief(x, depth=0):
+    """cheap description of an observation (z3's pretty printer is far too slow on large terms)"""
+    if is_sym(x):
+        t = x.sexpr()
+        return t if len(t) < 60 else t[:60] + "…"
+    if isinstance(x, dict):
+        if depth > 2:
+            return "{…}"
+        return "{" + ", ".join("%s: %s" % (k, brief(v, depth + 1)) for k, v in list(x.items())[:8]) + "}"
+    if isinstance(x, (list, tuple)):
+        if depth > 2:
+            return "[…]"
+        return "[" + ", ".join(brief(v, depth + 1) for v in list(x)[:8]) + (", …" if len(x) > 8 else "") + "]"
+    if isinstance(x, (str, int, bool)) or x is None:
+        return repr(x)
+    return "<%s>" % type(x).__name__
+
+
 def _short(obs):
-    s = repr(obs)
-    return s if len(s) < 200 else s[:200] + "…"
+    s = brief(obs)
+    return s if len(s) < 300 else s[:300] + "…"
 
 
 def _fill(eng, r, t0):
